@@ -1255,6 +1255,11 @@ fn run(a: &Args) {
                             *c.yields.borrow_mut() = 0;
                             install_hook(&c.world, &c.yields, chunks, disp.clone());
                             let before = c.driver.state(c.world.borrow().nidx);
+                            // connections in progress per worker index before this iteration (fault-free bookkeeping)
+                            let live_before: Vec<i64> = {
+                                let w = c.world.borrow();
+                                (0..w.nidx).map(|i| w.alive_wid(i).map_or(0, |wid| w.live_wid[wid])).collect()
+                            };
                             let faulted_before = {
                                 let mut w = c.world.borrow_mut();
                                 let drained = w.faulted_rx.drain();
@@ -1308,6 +1313,33 @@ fn run(a: &Args) {
                                                 let pos = before.handles.iter().position(|h| *h == expect).unwrap();
                                                 expect = before.handles[(pos + 1) % before.handles.len()];
                                             }
+                                        }
+                                    }
+                                    // C04: round robin that SKIPS exactly the workers at their limit. In an iteration with no
+                                    // concurrent activity (no schedule, nothing queued for the waker, no fault so far) the bits
+                                    // only change by saturation, so the whole dispatch sequence is determined: each connection
+                                    // goes to the first available worker at or after the cursor, the cursor moves behind it.
+                                    if !w.any_die && quiet && queued_before == 0 && !before.paused && before.handles.len() == w.nidx && !d.is_empty() {
+                                        let n = before.handles.len();
+                                        let mut avail = before.avail.clone();
+                                        let mut live = live_before.clone();
+                                        let mut cur = before.next % n;
+                                        for (k, got) in d.iter().enumerate() {
+                                            let Some(step) = (0..n).find(|j| avail[before.handles[(cur + j) % n]]) else { break };
+                                            let pos = (cur + step) % n;
+                                            let expect = before.handles[pos];
+                                            if *got != expect {
+                                                let msg = format!(
+                                                    "dispatch #{k} of this iteration went to worker {got}; round robin from cursor slot {cur} over the available workers (availability {:?}, in progress {:?}, limit {}) expects worker {expect}",
+                                                    avail, live, w.limit);
+                                                w.t3.push(("C04".into(), msg));
+                                                break;
+                                            }
+                                            live[expect] += 1;
+                                            if live[expect] >= w.limit as i64 {
+                                                avail[expect] = false;
+                                            }
+                                            cur = (pos + 1) % n;
                                         }
                                     }
                                     // C05: nothing is dispatched by an iteration that starts and ends paused when no
@@ -1681,6 +1713,47 @@ fn gen(a: &Args) {
         }
         writeln!(w, "pse workers=1 ls=xx").unwrap();
         writeln!(w, "pse workers=0 ls=tb").unwrap();
+    }
+    if prop == "C04" {
+        // directed: fill every worker, release on some of them (so that available and saturated workers alternate around
+        // the cursor), let the accept thread learn about it, then a burst: it must follow the cursor over the available ones
+        let mut k = 0;
+        for workers in [3usize, 4] {
+            for limit in [2usize, 3] {
+                for mask in 1..(1u32 << workers) - 1 {
+                    if !thorough && (mask as usize + workers + limit) % 3 != 0 {
+                        continue;
+                    }
+                    k += 1;
+                    writeln!(w, "case rr-skip-{k} workers={workers} limit={limit} listeners=tcp").unwrap();
+                    for _ in 0..workers * limit {
+                        writeln!(w, "connect 0").unwrap();
+                    }
+                    writeln!(w, "poll").unwrap();
+                    for wi in 0..workers {
+                        for _ in 0..limit {
+                            writeln!(w, "env recv:{wi}").unwrap();
+                        }
+                    }
+                    let mut freed = 0;
+                    for wi in 0..workers {
+                        if mask & (1 << wi) != 0 {
+                            // every connection of this worker ends: it stays available after its next dispatch
+                            for _ in 0..limit {
+                                writeln!(w, "env finish:{wi}:*").unwrap();
+                                freed += 1;
+                            }
+                        }
+                    }
+                    writeln!(w, "poll").unwrap();
+                    for _ in 0..freed {
+                        writeln!(w, "connect 0").unwrap();
+                    }
+                    writeln!(w, "poll").unwrap();
+                    writeln!(w, "poll").unwrap();
+                }
+            }
+        }
     }
     if prop == "C03" {
         // a server with listeners handed over every way the builder accepts them serves what waits after a pause
